@@ -120,6 +120,7 @@ def main():
                 distinct.add(key)
             # ---- K2: model vs implementation
             res = model.run(spec, obs['actions'], obs['orders'], obs['descendants'])
+            d = []
             if res.get('ambiguous_orders'):
                 st['ambiguous_orders'] += 1
             else:
@@ -143,7 +144,9 @@ def main():
             if prop in ('C01', 'C03', 'C04', 'C05', 'C09', 'C10', 'C11', 'C12', 'C19', 'C14') and (spec['mgr_faults'] or spec['store_faults']):
                 probs = []   # value-level oracles assume collaborators that do not raise
             if probs:
-                hitf = O.known_instance(findings, fl, probs)
+                # a recorded finding is reproduced by the model (which is faithful to the defective code): a failure on a case
+                # where the implementation ALSO departs from the model is not an instance of it, whatever the program shape
+                hitf = O.known_instance(findings, fl, probs) if not d else None
                 hit = [hitf] if hitf else []
                 if hit:
                     known_hits[hit[0]['id']] += 1
